@@ -111,6 +111,8 @@ pub struct State {
     pub fail_only_task: Option<usize>,
     /// if set, `fail_by_suffix` disarms itself after this many failures
     pub fail_by_suffix_budget: Option<u32>,
+    /// number of matching calls that still pass before `fail_by_suffix` starts to fire
+    pub fail_by_suffix_skip: u32,
     /// if set: at every removal, the value of this clock, the path and the image right after it
     pub removal_clock: Option<&'static std::sync::atomic::AtomicU64>,
     pub removal_snaps: Vec<(u64, String, Image)>,
@@ -151,7 +153,9 @@ impl State {
                 Some(t) => shuttle::current::get_current_task().map(usize::from) == Some(t),
                 None => true,
             };
-            if task_ok && mask & cls != 0 && what.to_string_lossy().ends_with(suffix.as_str()) {
+            if task_ok && mask & cls != 0 && what.to_string_lossy().ends_with(suffix.as_str()) && self.fail_by_suffix_skip > 0 {
+                self.fail_by_suffix_skip -= 1;
+            } else if task_ok && mask & cls != 0 && what.to_string_lossy().ends_with(suffix.as_str()) {
                 self.faults_fired += 1;
                 if let Some(n) = self.fail_by_suffix_budget.as_mut() {
                     *n -= 1;
